@@ -64,14 +64,16 @@ def run_pipe(b, cases, stages="asw", timeout=300):
                 break
             # the first unfinished case killed the worker (or hung)
             bad = rest[0]
-            cls = "DIVERGE" if timed_out else "CRASH"
+            cls = "DIVERGE" if (timed_out or any(l.startswith("WATCHDOG ") for l in out)) else "CRASH"
             for st, key in (("t", "TOK"), ("a", "AST"), ("s", "BASH"), ("w", "BATCH")):
                 if st in stages and key not in bad.out:
                     bad.out[key] = (cls, "")
             bad.out["_done"] = True
             todo = rest[1:]
 
-    chunks = common.chunks(cases, common.NCPU * 2)
+    # round-robin chunks: expensive cases (import graphs) are generated next to each other
+    k = common.NCPU * 2
+    chunks = [cases[i::k] for i in range(k) if cases[i::k]]
     common.pmap(work, chunks)
     return cases
 
